@@ -506,7 +506,7 @@ pub fn run(ctx: &RunCtx) -> i32 {
     let meta = CheckMeta {
         property: "C08",
         level: "fault_enumeration",
-        rule: "uploads (PutObject / UploadPart, 0..40 chunks of 1 B..64 KiB incl. equal-sized) encoded by the reference encoder; per upload every single fault is enumerated: bit flip in data / size field / signature of every chunk, hex-letter case flip in a signature, chunk resized, deleted, duplicated, swapped, spliced from another correctly signed upload, truncation at EVERY byte offset (small uploads) or at every token boundary +-1 (large ones), bytes after the final chunk, wrong or tampered x-amz-decoded-content-length; each under a framing drawn from {single body, one frame, chunk-aligned, 1-byte frames, splits inside tokens with Pending, random with Pending}. Expected outcome from a reference decoder applied to the faulty bytes. A cell is (fault kind, position class, framing class, terminal state).".into(),
+        rule: "uploads (PutObject / UploadPart, 0..40 chunks of 1 B..64 KiB incl. equal-sized) encoded by the reference encoder; per upload every single fault is enumerated: bit flip in data / size field / signature of every chunk, hex-letter case flip in a signature, chunk resized, deleted, duplicated, swapped, spliced from another correctly signed upload, truncation at EVERY byte offset (small uploads) or at every token boundary +-1 (large ones), bytes after the final chunk, wrong or tampered x-amz-decoded-content-length; each under a framing drawn from {single body, one frame, chunk-aligned, 1-byte frames, splits inside tokens with Pending, random with Pending}. Expected outcome from a reference decoder applied to the faulty bytes. Transport-fault leg: the body fails in transit instead of frame k (io::Error kinds, wrapped, custom) - the backend's stream must end with an error after a prefix of the payload. A cell is (fault kind, position class, framing class, terminal state).".into(),
         assumptions: vec![
             "a fault that leaves the encoding semantically identical is classified by re-decoding with the reference decoder, not assumed faulty".into(),
             "the recording backend drains the body to its end or first error; 'ends with an error' is observed there".into(),
